@@ -28,7 +28,7 @@ PROPS.update({
                 "and result store failing or not) the model of _Processor.process emits exactly one terminal broker call; "
                 "C02_disposition_table characterises it (iff) as ack/retry/reschedule/nack; C02_eager_nothing_more. The model "
                 "(Handle.v+Ladder.v) is tied to /repo by ~1.4k deliveries per quick run through a real Worker (cross product of "
-                "endings x eager actions x retry states x recurring x result x converter, plus concurrent mixes of up to 8).",
+                "endings x eager actions x retry states x recurring x result x converter, plus concurrent mixes of up to 8). Oracle-only families on top: an eager response racing the actor's time limit over a broker whose calls take 0 / 30 ms (168 runs; fix 13f6c0a recorded) and two overlapping deliveries of one message id (16 runs; fix 3608da2 recorded): exactly one terminal action per delivery, at most one place afterwards.",
         "note": "In-memory broker only; a raising broker call is excluded by hypothesis (no_faults); actor bodies that catch "
                 "BaseException are outside the model; thread/process-pool actors are not exercised.",
         "technique": "Coq proof by invariant over API-call sequences + differential correspondence via a real Worker in virtual time",
@@ -225,7 +225,9 @@ RUNNER_NOTE = ("The worker model (Runner.v) is an event-labelled transition syst
                "once); theorems hold for every event sequence the step function accepts, i.e. for every schedule. The tie is trace "
                "acceptance: every recorded run of the real Worker must be accepted event by event and end in the observed counters. "
                "Events are labelled by reading the runner's limiter / stop-event identities and task frame locals. In-memory broker "
-               "only; thread/process-pool actors and actors ignoring cancellation are outside. ")
+               "only; thread/process-pool actors and actors ignoring cancellation are outside. EvPause is pause() + the start of the wait in one "
+               "step (what the in-memory and Redis consumers do); runs over a consumer whose pause() / unpause() are round trips (30 % "
+               "of the C09 scenarios, 0.5-50 ms) are judged by the oracle only. ")
 
 PROPS["C09"] = {
     "text": "Theorems over all accepted event sequences of the worker model: value + running tasks + loops holding a slot = "
@@ -283,7 +285,7 @@ PROPS["C03"] = {
             "refuted by a six-step witness for the old order). Tie: the real Worker in virtual time with the stop signal injected at "
             "chosen event-loop iterations (a stratified sample per scenario in quick, EVERY busy iteration in thorough: ~18k runs), "
             "each single-queue run's trace accepted by the model and ending in the observed places; oracle on every run: place, "
-            "parameters (retry counter unchanged), terminal calls, return within graceful + 7 s. Shutdown of the Redis consumer: finish() at every loop iteration of its background task (4 scenarios x 70 cut points per quick run) must leave every message in one place and none marked as processing (fix e1e0137 recorded); consume() of the Redis and of the RabbitMQ consumer cancelled at every loop iteration while a buffered message has expired (fixes 22dfaf1, de034a6 recorded). finish() of the Redis consumer over a slow wire (every round trip some loop iterations long) and of the RabbitMQ consumer while a consume() is blocked and a delivery arrives, at every iteration; buffers holding runs of expired messages. A real Worker over the fake Redis and RabbitMQ servers with SIGINT at every loop iteration (9 scenarios - 1-2 queues, messages_limit none/1/2, with and without suspending consume subscribers - x 90+ cut points x 2 brokers per quick run; oracle: run() returns, nothing in flight, everything in one place afterwards; fixes 53b80e5, 55cf787, 51d7ee3, aeff44b recorded). The consumer's hand-over pipeline (take on the wire / taken / in hand / buffer / returning through the middleware wrapper / kept undelivered / with the caller / nack or reject on the wire) is modelled in Handover.v for ALL interleavings of the background task, the caller of consume(), its cancellation, finish() and expiry: once finish() has returned every message is back in its queue, dead-lettered or with the caller, or on a way that ends there by itself - the one exception, a caller cancelled while a message is being handed over AFTER finish() collected, is named (`late`), shown to be the only one and real in the model (C03_handover_*); tie: the real Redis consumer over the fake server with finish() at k and the caller's cancellation at c for a grid of (k, c) (5 scenarios, ~1200 runs per quick run), the custody of every message read off the client's fields and the server before EVERY loop iteration, each step between snapshots accepted by the model (Coq decides: some order of the inferred events leads exactly to the observed state). Death clause (Redis): maintenance returns a message marked as processed exactly when its execution timeout has elapsed since the second it was taken, never before, and the returned message is in one deliverable place (C03_redis_*); tie: ~120 sequential Redis histories with takes that are never disposed, clock jumps around 600 s and maintenance runs, command stream equal to the model's.",
+            "parameters (retry counter unchanged), terminal calls, return within graceful + 7 s. Shutdown of the Redis consumer: finish() at every loop iteration of its background task (4 scenarios x 70 cut points per quick run) must leave every message in one place and none marked as processing (fix e1e0137 recorded); consume() of the Redis and of the RabbitMQ consumer cancelled at every loop iteration while a buffered message has expired (fixes 22dfaf1, de034a6 recorded). finish() of the Redis consumer over a slow wire (every round trip some loop iterations long) and of the RabbitMQ consumer while a consume() is blocked and a delivery arrives, at every iteration; buffers holding runs of expired messages. A real Worker over the fake Redis and RabbitMQ servers with SIGINT at every loop iteration (9 scenarios - 1-2 queues, messages_limit none/1/2, with and without suspending consume subscribers - x 90+ cut points x 2 brokers per quick run; oracle: run() returns, nothing in flight, everything in one place afterwards; fixes 53b80e5, 55cf787, 51d7ee3, aeff44b recorded). The consumer's hand-over pipeline (take on the wire / taken / in hand / buffer / returning through the middleware wrapper / kept undelivered / with the caller / nack or reject on the wire) is modelled in Handover.v for ALL interleavings of the background task, the caller of consume(), its cancellation, finish() and expiry: once finish() has returned every message is back in its queue, dead-lettered or with the caller, or on a way that ends there by itself - the one exception, a caller cancelled while a message is being handed over AFTER finish() collected, is named (`late`), shown to be the only one and real in the model (C03_handover_*); tie: the real Redis consumer over the fake server and the real RabbitMQ consumer over the fake channel (the model's push variant: deliveries pushed by the server, bounced when the consumer is paused or finished) with finish() at k and the caller's cancellation at c for a grid of (k, c) (10 scenarios, ~1900 runs, ~600 distinct traces per quick run), the custody of every message read off the client's fields and the server before EVERY loop iteration, each step between snapshots accepted by the model (Coq decides: some order of the inferred events leads exactly to the observed state). Death clause (Redis): maintenance returns a message marked as processed exactly when its execution timeout has elapsed since the second it was taken, never before, and the returned message is in one deliverable place (C03_redis_*); tie: ~120 sequential Redis histories with takes that are never disposed, clock jumps around 600 s and maintenance runs, command stream equal to the model's.",
     "note": "Shutdown (stop / cancel / finish) is shown for the in-memory broker; the process-death clause for the Redis client in "
             "sequential histories over the fake server (no real process is killed: a 'dead' worker is one that never disposes of "
             "what it took). "
